@@ -30,6 +30,9 @@ DECIDED = [
     'R5 no row is created outside the recording call, the terminal row of a range error and the after-loop fallback, '
     'whose guard is false (evaluated) as soon as the card has two rows: nothing appends the final integration state, '
     'which lies on no multiple of the step, to an ordinary card',
+    'R6 the loop runs while x <= range + m with m (read from the condition and the definitions reaching it, evaluated '
+    'at sample launch / look angles) at least the integration step whenever the recording step is: the sample that '
+    'reaches the requested range is still examined',
 ]
 NOT_DECIDED = ['the number of rows, one row per multiple, strict monotonicity, the behaviour of the loop bound under '
                'head / tail wind, the time-step spacing bound: all depend on the runtime sequence of integration points']
@@ -317,6 +320,79 @@ def run(prog: Program, rep, thorough: bool) -> None:
     else:
         rep.ok('C03.R3', sr.where, 'at x = 0, t = 0 the sample returned is exactly the initial (time, position, velocity, mach)')
     check_extra_rows(prog, rep, F, 'C03.R5')
+    check_loop_margin(prog, rep, F, 'C03.R6')
+
+
+def check_loop_margin(prog: Program, rep, F: IntegrateFacts, rule: str) -> None:
+    """The sample that reaches the requested range is examined at the top of an iteration, so the loop must still be
+    entered with it: it runs while x <= range + m, and one step advances x by up to the integration step (level flight
+    in still air).  For recording steps not smaller than the integration step - the statement's quantifier - the margin
+    m must therefore be at least the integration step.  m is read from the loop condition and the definitions that
+    reach it, and evaluated at sample values of everything else it mentions."""
+    import itertools
+    import math as _m
+    rep.rule(rule, 'the loop is still entered with the sample that reaches the requested range', 1)
+    tc = F.mod
+    ev = Evaluator(prog)
+    st = State()
+    tcc = prog.cls(C.M_TC, 'TrajectoryCalc')
+    selfv = ev.new_inst(st, tcc, {'calc_step': S('cs'), 'barrel_elevation': S('be'), 'look_angle': S('la'),
+                                  'muzzle_velocity': S('mv'), 'sight_height': S('sh')})
+    params = F.func.positional
+    st.env.update({params[0]: selfv, params[2]: S('R'), params[3]: S('rs'),
+                   F.P: C.mk_vec(ev, st, prog, 'x', 'y', 'z')})
+    # definitions reaching the loop condition, evaluated in order
+    need = {n.id for n in ast.walk(F.loop.test) if isinstance(n, ast.Name)} - set(st.env)
+    done = set()
+    for _round in range(4):
+        for name in sorted(need - done):
+            defs = [d for d in F.defs_reaching(F.loop.test, name) if not F.in_loop(d)]
+            if len(defs) != 1 or not isinstance(defs[0].ast, (ast.Assign, ast.AnnAssign)) or defs[0].ast.value is None:
+                continue
+            val = defs[0].ast.value
+            more = {n.id for n in ast.walk(val) if isinstance(n, ast.Name)} - set(st.env) - {'min', 'max', 'abs', 'math'}
+            if more - done:
+                need |= more
+                continue
+            try:
+                st.env[name] = ev.eval(val, st, Ctx(tc, F.func, None, 0))
+                done.add(name)
+            except Undecided:
+                pass
+    try:
+        tv = ev.eval(F.loop.test, st, Ctx(tc, F.func, None, 0))
+    except Undecided as exc:
+        rep.undecided(rule, tc.where(F.loop), 'loop margin', f'loop condition not readable: {exc}')
+        return
+    if not (isinstance(tv, Cond) and tv.test.rf is not None and tv.test.kind in ('nonneg', 'pos') and isinstance(tv.a, Const)):
+        rep.undecided(rule, tc.where(F.loop), 'loop margin', f'loop condition is {tv!r}: not a comparison of the distance with a bound')
+        return
+    rf = tv.test.rf if tv.a.value is True else -tv.test.rf          # condition holds while rf >= 0 (or > 0)
+    co = rf.coeffs_in('x')
+    if co is None or set(co) - {0, 1} or 1 not in co or not co[1].equals(A.rf(-1)):
+        rep.undecided(rule, tc.where(F.loop), 'loop margin', f'the loop runs while {tv.test!r}: not `x <= bound`')
+        return
+    margin = co.get(0, A.rf(0)) - A.sym('R')
+    others = sorted(margin.symbols() - {'cs', 'rs'})
+    worst = None
+    grid = {'be': (0.0, 0.6, 1.3), 'la': (0.0, -0.4, 0.5)}
+    for rs_, combo in itertools.product((1.0, 4.0), itertools.product(*[grid.get(o, (0.5, 2.0)) for o in others])):
+        env_ = {'cs': 1.0, 'rs': rs_, **dict(zip(others, combo))}
+        try:
+            mval = margin.evalf(env_)
+        except (KeyError, ValueError, ZeroDivisionError):
+            rep.undecided(rule, tc.where(F.loop), 'loop margin', f'margin {margin!r} not evaluable')
+            return
+        if mval < 1.0 - 1e-12 and (worst is None or mval < worst[0]):
+            worst = (mval, env_)
+    if worst:
+        rep.fail(rule, tc.path, F.loop.lineno, F.func.qualname, 'loop-margin',
+                 f'the loop runs while x <= range + {margin!r}; with an integration step of 1 and a recording step of '
+                 f'{worst[1]["rs"]:g} the margin is {worst[0]:.3g} at {dict((k, v) for k, v in worst[1].items() if k not in ("cs", "rs"))}, '
+                 f'less than the step: a sample can jump from short of the range to beyond the bound, the loop ends and the '
+                 f'row at the requested range is never recorded (a trajectory that has flattened by then)')
+    else:
+        rep.ok(rule, tc.where(F.loop), f'loop margin {margin!r} >= the integration step whenever the recording step is')
 
 
 def check_extra_rows(prog: Program, rep, F: IntegrateFacts, rule: str) -> None:
@@ -393,6 +469,8 @@ def _after(F: IntegrateFacts, rn, n) -> bool:
 TCF = 'py_ballisticcalc/trajectory_calc/_trajectory_calc.py'
 IFF = 'py_ballisticcalc/interface.py'
 VARIANTS = [
+    Variant('loop-margin-scaled-by-launch-angle', 'break', [(TCF, '        min_step = min(self.calc_step, record_step)\n', '        min_step = min(self.calc_step * math.cos(self.barrel_elevation), record_step)\n')], 'C03.R6', 'seeded change C03/9: steep shots lose the row at the range'),
+    Variant('twin-loop-margin-two-steps', 'twin', [(TCF, '        while range_vector.x <= maximum_range + min_step:', '        while range_vector.x <= maximum_range + 2 * min_step:')], None, 'a wider margin only adds iterations'),
     Variant('final-state-row-appended', 'break', [(TCF, '        # Ensure that we have at least two data points in trajectory\n', '        if ranges and maximum_range - (ranges[-1].distance >> Distance.Foot) > min_step:\n            ranges.append(create_trajectory_row(\n                time, range_vector, velocity_vector,\n                velocity, mach, self.spin_drift(time), self.look_angle,\n                density_factor, drag, self.weight, TrajFlag.RANGE))\n        # Ensure that we have at least two data points in trajectory\n')], 'C03.R5', 'seeded change C03/4'),
     Variant('fallback-row-unconditional', 'break', [(TCF, '        if len(ranges) < 2:\n            ranges.append(create_trajectory_row(', '        if len(ranges) < 2 or True:\n            ranges.append(create_trajectory_row(')], 'C03.R5'),
     Variant('twin-fallback-le-one', 'twin', [(TCF, '        if len(ranges) < 2:\n            ranges.append(create_trajectory_row(', '        if len(ranges) <= 1:\n            ranges.append(create_trajectory_row(')], None),
